@@ -327,7 +327,11 @@ def run_file(spec, res):
             if k not in keys:
                 problems.append('variable %s not exposed (%s)' % (k, keys))
                 continue
-            got = np.asarray(f.variables[k][...], 'f8')
+            try:
+                got = np.asarray(f.variables[k][...], 'f8')
+            except Exception as e:
+                problems.append('reading %s raised %r' % (k, e))
+                continue
             ref = exp['vars'][k].astype('f8')
             if got.shape != ref.shape:
                 problems.append('%s shape %s, encoded %s' % (k, got.shape,
